@@ -18,6 +18,7 @@ EXPLANATION = (
     'Dataset counterparts plus time. Multiset equalities and numeric bin means are NOT decided.')
 ASSUMPTIONS = ['axis/descriptor table: measurements axis 0 obs, axis 1 channel, axis 2 time']
 FLOOR = 60
+ANALYSED_FLOORS = {'order_obligations': 6}
 RULE_FLOORS = {'AXIS-pair': 10, 'ND-field': 30, 'SORT-stable': 2}
 
 D = 'data.dataset.'
@@ -37,8 +38,8 @@ EXC = {
 def run(ctx, obs):
     from ..rules import order as _order
     _order.contracts(ctx, obs, ['util.data_utils.get_unique_unsorted', 'util.data_utils.get_unique_inverse', 'data.computations.average_dataset_by'])
-    if _order.report(ctx, obs, ['data.base.', 'data.dataset.', 'data.computations.', 'data.ops.', 'util.data_utils.']) < 6:
-        raise AnalysisError('C11: fewer order obligations than confirmed by hand (split_obs / split_channel x2, average_dataset_by, get_unique_inverse)')
+    # floor: split_obs / split_channel x2, average_dataset_by (x2), get_unique_inverse - confirmed by hand
+    obs.analysed['order_obligations'] = _order.report(ctx, obs, ['data.base.', 'data.dataset.', 'data.computations.', 'data.ops.', 'util.data_utils.'])
     from ..rules import sweeps
     sweeps.run(ctx, obs, 'C11')
     prog = ctx.prog
